@@ -239,13 +239,14 @@ def make_scenario(spec, seed, idx):
     labels = ['l0', 'l1', 'l2', 'l3']
 
     def place_blob(owner_file):
-        name = r.choice(('d1.bin', 'blob.dat', 'img.raw'))
+        name = r.choice(('d1.bin', 'blob.dat', 'img.raw', 'Logo.BIN', 'IMG_01.Raw'))
         where = r.choice(('adjacent', 'adjacent', 'subdir') + (('inc',) if inc_dirs else ()))
         odir = posixpath.dirname(owner_file)
         if where == 'adjacent':
             path, w = odir + '/' + name, name
         elif where == 'subdir':
-            path, w = odir + '/data/' + name, 'data/' + name
+            sub = r.choice(('data', 'data', 'Assets'))
+            path, w = odir + '/' + sub + '/' + name, sub + '/' + name
         else:
             path, w = r.choice(inc_dirs) + '/' + name, name
         # keep the search unambiguous: no other candidate of this include may exist
@@ -328,11 +329,17 @@ def make_scenario(spec, seed, idx):
                     twins[tp] = {'rand': [r.randrange(1 << 30), n if r.random() < 0.7 else n + 3]}
                     twins_of = pth
                     break
+    for (of, w), pth in sorted(written_by_owner.items()):
+        if pth.lower() != pth and r.random() < 0.7:
+            lp = posixpath.dirname(pth).rsplit('/', 1)[0] + '/' + posixpath.dirname(pth).rsplit('/', 1)[1].lower() + '/' + posixpath.basename(pth).lower() if r.random() < 0.3 else posixpath.dirname(pth) + '/' + posixpath.basename(pth).lower()
+            if lp not in bins and lp not in decoys and lp not in twins:
+                decoys[lp] = {'rand': [r.randrange(1 << 30), len(progs.bin_bytes(bins[pth]))]}
+                decoy_kinds.append('case-twin')
     runs = []
     for cwd in cwds:
         runs.append({'via': 'api', 'cwd': cwd, 'compress': False, 'main_abs': r.random() < 0.7})
     runs.append({'via': 'cli', 'cwd': r.choice(cwds), 'compress': r.random() < 0.3, 'main_abs': r.random() < 0.5})
-    scen = {'kind': 'ib', 'files': files, 'bins': bins, 'decoys': decoys, 'dirs': ['/w/proj', '/w/proj/sub', '/w/proj/data', '/w/proj/sub/data', '/w/lib', '/w/lib/data',
+    scen = {'kind': 'ib', 'files': files, 'bins': bins, 'decoys': decoys, 'dirs': ['/w/proj', '/w/proj/sub', '/w/proj/data', '/w/proj/sub/data', '/w/lib', '/w/lib/data', '/w/proj/Assets', '/w/proj/assets', '/w/proj/sub/Assets', '/w/lib/Assets', '/w/lib/assets', '/w/proj/sub/assets',
                                                                                        '/w/assets', '/w/elsewhere', '/w/unrelated', '/w/out'],
             'main': main, 'inc_dirs': inc_dirs, 'items': items, 'runs': runs, 'meta': {'places': meta_places, 'decoys': sorted(set(decoy_kinds))},
             'fs_faults': [], 'twins': twins, 'twin_of': twins_of if twins else None}
